@@ -71,6 +71,26 @@ def run(ctx):
     #     parameter and qubit counts by (in)equality of the two lengths
     from qv.engine import fn_expr_operand as _op
     cmp_found = {}
+
+    def _rejects(start):
+        """does control reach `return false` from block `start` without another decision?"""
+        b_, seen_ = start, set()
+        while b_ is not None and b_ not in seen_:
+            seen_.add(b_)
+            for st_ in mt.blocks[b_]["s"]:
+                if st_["k"] == "assign" and st_["p"]["l"] == 0 and not st_["p"]["pr"] and st_["rv"]["k"] == "use" and "k" in st_["rv"]["o"]:
+                    return st_["rv"]["o"]["k"].get("s") == "false"
+            t_ = mt.blocks[b_]["t"]
+            b_ = t_["t"] if t_["k"] == "goto" else None
+        return False
+
+    def _polarity(tt, is_ne):
+        """'==' when the side on which the two values DIFFER leads straight to `return false`"""
+        false_targets = [target for v, target in tt["ts"] if int(v) == 0]
+        true_target = tt["else"] if false_targets else None
+        differs_target = (true_target if is_ne else (false_targets[0] if false_targets else None))
+        return "==" if differs_target is not None and _rejects(differs_target) else "differs-side does not reject"
+
     for sb in range(len(mt.blocks)):
         tt = mt.blocks[sb]["t"]
         if tt["k"] != "switch":
@@ -79,11 +99,11 @@ def run(ctx):
         if e[0] == "call" and e[1] and e[1].rsplit("::", 1)[-1] in ("ne", "eq") and len(e[2]) == 2:
             a_, b_ = e[2]
             if a_[0] == "field" and b_[0] == "field" and a_[2] == b_[2] and {a_[1][0], b_[1][0]} == {"param"} and a_[1][1] != b_[1][1]:
-                cmp_found[a_[2]] = "=="
+                cmp_found[a_[2]] = _polarity(tt, e[1].rsplit("::", 1)[-1] == "ne")
         if e[0] == "bin" and e[1] in ("Ne", "Eq"):
             a_, b_ = e[2], e[3]
             if all(x[0] == "call" and x[1].endswith("::len") and x[2] and x[2][0][0] == "field" for x in (a_, b_)) and a_[2][0][2] == b_[2][0][2] and a_[2][0][1] != b_[2][0][1]:
-                cmp_found[a_[2][0][2] + ".len"] = "=="
+                cmp_found[a_[2][0][2] + ".len"] = _polarity(tt, e[1] == "Ne")
     for comp in ("name", "modifiers", "parameters.len", "qubits.len"):
         key = "K8|matches-exact|%s" % comp
         ok = cmp_found.get(comp) == "=="
